@@ -307,7 +307,7 @@ def main(prop, judge, make, sizes, describe, argv=None):
         n_corner = args.corner
     known = load_known(prop)
     print("%s %s seed=%d: %d cornerstone + %d swarm runs on %d workers (census %d classes, %d families, src %s)" % (
-        prop, args.tier, seed, n_corner, n_swarm, args.workers, len(world.CENSUS), len(T.FAMILIES), world.src_root()), flush=True)
+        prop, args.tier, seed, n_corner, n_swarm, args.workers, sum(1 for q in world.CENSUS if q.startswith('exactpack.')), len(T.FAMILIES), world.src_root()), flush=True)
 
     # known findings are re-observed deterministically from their committed probe replays
     known_lines = []
@@ -386,7 +386,7 @@ def main(prop, judge, make, sizes, describe, argv=None):
 
 def write_evidence(prop, tier, seed, agg, wall, n_viol, reported, known_lines, harness, truncated, describe, planned):
     os.makedirs(EVIDENCE_DIR, exist_ok=True)
-    census = sorted(world.CENSUS)
+    census = sorted(q for q in world.CENSUS if q.startswith("exactpack."))
     covered = sorted(agg.classes)
     fams = sorted(T.FAMILIES)
     n_fam = len(fams)
@@ -414,7 +414,7 @@ def write_evidence(prop, tier, seed, agg, wall, n_viol, reported, known_lines, h
         "ordered_family_pairs": {"reached": len(agg.fam_pairs), "of": n_fam * n_fam},
         "same_module_parameter_set_pairs": len(agg.pset_pairs),
         "containers": agg.containers,
-        "classes_covered": {"covered": len(covered), "of": len(census), "uncovered": [c for c in census if c not in agg.classes][:40]},
+        "classes_covered": {"covered": len([c for c in covered if c.startswith("exactpack.")]), "of": len(census), "uncovered": [c for c in census if c not in agg.classes][:40]},
         "global_state": {"tracked_variables": discover.tracked(), "distinct_state_signatures": len(agg.state_sigs),
                          "dirty_variables": {k: len(v) for k, v in sorted(agg.dirty_vars.items())}},
         "runs_leaving_descriptors_open": agg.fd_leaks,
